@@ -619,6 +619,36 @@ theorem RxSO3_exp_log_near_pi (eps : ℝ) (X : RxSO3 ℝ) (hs : 0 < X.s) (h0 : 0
   simp only [exp_real, log_real]
   rw [so3Exp_SO3Log_r2 eps X.q h0 hpi h1 h2, Real.exp_log hs]
 
+/-! ## item-wise = batched, no state between calls
+
+The model is item-level and pure, so these hold by construction; they are stated because they are exactly what the
+harness oracles `batch` (each item of a mixed-regime batch against the same call on the item alone), `order` and
+`stale` (results independent of earlier calls, other dtypes, in-place updates) check on the real code. -/
+
+/-- the result for an item does not depend on the other items of the batch (whatever their regimes) -/
+theorem batch_itemwise {β γ : Type} (f : β → γ) (pre post : List β) (x : β) :
+    (batchOp f (pre ++ x :: post))[pre.length]? = some (f x) := by
+  unfold batchOp
+  simp
+
+/-- a batched op returns one result per item -/
+theorem batch_length {β γ : Type} (f : β → γ) (xs : List β) : (batchOp f xs).length = xs.length := by
+  unfold batchOp; simp
+
+/-- the result of a call does not depend on the calls made before or after it — including calls with another `eps`
+(another dtype) -/
+theorem calls_history_independent {β γ : Type} (f : ℝ → β → γ) (pre post : List (ℝ × β)) (eps : ℝ) (x : β) :
+    (runCalls f (pre ++ (eps, x) :: post))[pre.length]? = some (f eps x) := by
+  unfold runCalls
+  simp
+
+/-- instances for the property's maps: `Log` of an item inside any (mixed-regime) batch is `Log` of the item -/
+theorem Sim3_log_batch_itemwise (eps : ℝ) (pre post : List (Sim3 ℝ)) (X : Sim3 ℝ) :
+    (batchOp (Sim3Log eps) (pre ++ X :: post))[pre.length]? = some (Sim3Log eps X) := batch_itemwise _ pre post X
+theorem sim3_exp_log_history_independent (pre post : List (ℝ × sim3 ℝ)) (eps : ℝ) (x : sim3 ℝ) :
+    (runCalls sim3LogExp (pre ++ (eps, x) :: post))[pre.length]? = some (sim3LogExp eps x) :=
+  calls_history_independent _ pre post eps x
+
 /-! ## non-vacuity: the hypotheses are satisfiable by non-trivial values (and the conclusions instantiate) -/
 section NonVacuity
 open C02Ex
